@@ -623,3 +623,107 @@ func (g *Gen) Payload(root *Node) (string, []string) {
 	j.keys, j.items = keys, items
 	return j.String(), labels
 }
+
+// ---------------------------------------------------------------- reading back (replay)
+
+func strsOrNil(x *common.Sexp) []string {
+	if len(x.List) == 0 {
+		return nil
+	}
+	return x.Strs()
+}
+
+// FromSexp rebuilds a plan tree from its S-expression dump.
+func FromSexp(x *common.Sexp) *Node {
+	l := x.List
+	switch x.Head() {
+	case "obj":
+		n := &Node{Kind: KObj, Path: strsOrNil(l[1]), Nullable: l[2].Bool(), TypeName: string(l[3].Str),
+			Possible: strsOrNil(l[4]), Inaccessible: strsOrNil(l[5]), Unresolvable: l[6].Bool()}
+		for _, fx := range l[7].List[1:] {
+			fl := fx.List
+			f := &Field{Name: string(fl[1].Str), Value: FromSexp(fl[5])}
+			if fl[2].Head() == "some" {
+				f.On = fl[2].List[1].Strs()
+				if f.On == nil {
+					f.On = []string{}
+				}
+			}
+			if fl[3].Head() == "some" {
+				for _, p := range fl[3].List[1:] {
+					d, _ := strconv.Atoi(p.List[0].Atom)
+					f.ParentOn = append(f.ParentOn, ParentOn{Depth: d, Names: p.List[1].Strs()})
+				}
+			}
+			if fl[4].Head() == "some" {
+				f.Auth = &Auth{ParentType: string(fl[4].List[1].Str), FieldName: string(fl[4].List[2].Str)}
+			}
+			n.Fields = append(n.Fields, f)
+		}
+		return n
+	case "arr":
+		return &Node{Kind: KArr, Path: strsOrNil(l[1]), Nullable: l[2].Bool(), Item: FromSexp(l[3])}
+	case "str", "bool", "int", "float", "bigint", "scalar":
+		k := map[string]Kind{"str": KStr, "bool": KBool, "int": KInt, "float": KFloat, "bigint": KBigInt, "scalar": KScalar}[x.Head()]
+		return &Node{Kind: k, Path: strsOrNil(l[1]), Nullable: l[2].Bool()}
+	case "enum":
+		return &Node{Kind: KEnum, Path: strsOrNil(l[1]), Nullable: l[2].Bool(), TypeName: string(l[3].Str), Values: strsOrNil(l[4]), InaccValues: strsOrNil(l[5])}
+	case "null":
+		return &Node{Kind: KNull}
+	case "static":
+		return &Node{Kind: KStatic, Static: string(l[1].Str)}
+	case "emptyobj":
+		return &Node{Kind: KEmptyObj}
+	case "emptyarr":
+		return &Node{Kind: KEmptyArr}
+	}
+	return &Node{Kind: KNull}
+}
+
+// JSONText renders a JSON S-expression back to JSON text.
+func JSONText(x *common.Sexp) string {
+	switch x.Head() {
+	case "n":
+		return "null"
+	case "t":
+		return "true"
+	case "f":
+		return "false"
+	case "num":
+		return string(x.List[1].Str)
+	case "s":
+		return quoteJSON(x.List[1].Str)
+	case "a":
+		parts := []string{}
+		for _, it := range x.List[1:] {
+			parts = append(parts, JSONText(it))
+		}
+		return "[" + strings.Join(parts, ",") + "]"
+	case "o":
+		parts := []string{}
+		for _, it := range x.List[1:] {
+			parts = append(parts, quoteJSON(it.List[0].Str)+":"+JSONText(it.List[1]))
+		}
+		return "{" + strings.Join(parts, ",") + "}"
+	}
+	return "null"
+}
+
+func quoteJSON(b []byte) string {
+	var sb strings.Builder
+	sb.WriteByte('"')
+	for _, c := range b {
+		switch {
+		case c == '"':
+			sb.WriteString(`\"`)
+		case c == '\\':
+			sb.WriteString(`\\`)
+		case c < 0x20:
+			sb.WriteString("\\u00" + strconv.FormatUint(uint64(c)>>4, 16) + strconv.FormatUint(uint64(c)&15, 16))
+		default:
+			sb.WriteByte(c)
+		}
+	}
+	sb.WriteByte('"')
+	return sb.String()
+}
